@@ -16,5 +16,5 @@ rsync -a --exclude work --exclude replays --exclude .git --exclude seeded --excl
 sed -i "s|=> /repo|=> $base/repo|" "$base/verif/harness/go.mod"
 [ -f "$base/verif/extract/go.mod" ] && sed -i "s|=> /repo|=> $base/repo|" "$base/verif/extract/go.mod"
 cd "$base/verif" && mkdir -p work replays
-VERIF_REPO="$base/repo" timeout 3000 ./check "$pid" "$@" 2>&1 | grep -E "VIOLATION|KNOWN|→|broken|obligation|no longer" | tail -6
+VERIF_REPO="$base/repo" timeout 3000 ./check "$pid" "$@" 2>&1 | grep -E "VIOLATION|KNOWN|→|broken|obligation|no longer" | tail -40
 for f in $(ls -t replays 2>/dev/null | head -2); do echo "--- $f"; head -6 "replays/$f" | cut -c1-400; done
